@@ -450,7 +450,15 @@ def write_fasta(path, recs, names=None, wrap=None, gz=False):
         else:
             out.append(r)
     data = ("\n".join(out) + "\n").encode()
-    if gz:
+    if gz == "multi":
+        # several gzip members one after the other (what `cat a.gz b.gz` or block-gzip tools produce); cut anywhere
+        cuts = sorted({len(data) // 3, (2 * len(data)) // 3, min(len(data), 7)})
+        with open(path, "wb") as f:
+            a = 0
+            for c in cuts + [len(data)]:
+                f.write(gzip.compress(data[a:c]))
+                a = c
+    elif gz:
         with gzip.open(path, "wb") as f:
             f.write(data)
     else:
